@@ -9,6 +9,7 @@ and messages.  "Verification fails under any other key or message" is unforgeabi
 a theorem here (exercised by the harness).
 -/
 import BytomModel.Lemmas.KD
+import BytomModel.Model.HSM
 
 namespace BytomModel.Props.C28
 open BytomModel.KD BytomModel.Lemmas.KD
@@ -303,6 +304,87 @@ theorem wrong_password_rejected (ks : KS) (xprv auth auth' salt iv : Bytes)
   simp only
   rw [if_pos]
   exact fun h => hkdf (hmac _ _ _ h)
+
+/-! ### the key store as the HSM API presents it (reference model `Model/HSM.lean`)
+
+The real `pseudohsm.HSM` is compared with this model on random operation histories (and with a
+new HSM object over the same directory) by the harness; the statements below are what the
+model guarantees for EVERY history. -/
+
+section hsm
+open BytomModel.HSM
+
+theorem get_set_same : ∀ (s : State) (k : Nat) (v : Option Nat), HSM.get (HSM.set s k v) k = v
+  | [], 0, v => rfl
+  | [], k + 1, v => by
+    have := get_set_same [] k v
+    simpa [HSM.get, HSM.set] using this
+  | _ :: r, 0, v => rfl
+  | x :: r, k + 1, v => by
+    have := get_set_same r k v
+    simpa [HSM.get, HSM.set] using this
+
+theorem get_set_other : ∀ (s : State) (k j : Nat) (v : Option Nat), j ≠ k → HSM.get (HSM.set s k v) j = HSM.get s j
+  | [], 0, j, v, h => by
+    cases j with
+    | zero => exact absurd rfl h
+    | succ j => simp [HSM.get, HSM.set]
+  | [], k + 1, j, v, h => by
+    cases j with
+    | zero => simp [HSM.get, HSM.set]
+    | succ j =>
+      have := get_set_other [] k j v (by omega)
+      simpa [HSM.get, HSM.set] using this
+  | x :: r, 0, j, v, h => by
+    cases j with
+    | zero => exact absurd rfl h
+    | succ j => simp [HSM.get, HSM.set]
+  | x :: r, k + 1, j, v, h => by
+    cases j with
+    | zero => simp [HSM.get, HSM.set]
+    | succ j =>
+      have := get_set_other r k j v (by omega)
+      simpa [HSM.get, HSM.set] using this
+
+/-- **After a successful password change the old password no longer unlocks, the new one does**,
+    and signing / checking are refused resp. accepted accordingly — whatever happened before. -/
+theorem old_password_refused_after_reset (s : State) (k old new : Nat) (hne : old ≠ new)
+    (hok : (HSM.step s (.resetpw k old new)).2 = true) :
+    let s' := (HSM.step s (.resetpw k old new)).1
+    (HSM.step s' (.check k old)).2 = false ∧ (HSM.step s' (.sign k old)).2 = false ∧
+    (HSM.step s' (.check k new)).2 = true ∧ (HSM.step s' (.sign k new)).2 = true := by
+  by_cases hu : unlocks s k old = true
+  · have hg : HSM.get s k = some old := by simpa [unlocks] using hu
+    simp [HSM.step, unlocks, hg, get_set_same, Ne.symm hne]
+  · simp [HSM.step, hu] at hok
+
+/-- a deleted key is unlocked by no password; a key created afterwards under the same alias only
+    by its own -/
+theorem deleted_key_locked (s : State) (k pw pw' : Nat) (hok : (HSM.step s (.delete k pw)).2 = true) :
+    (HSM.step (HSM.step s (.delete k pw)).1 (.check k pw')).2 = false := by
+  by_cases hu : unlocks s k pw = true
+  · have hg : HSM.get s k = some pw := by simpa [unlocks] using hu
+    simp [HSM.step, unlocks, hg, get_set_same]
+  · simp [HSM.step, hu] at hok
+
+/-- operations on one alias never change what unlocks another alias; sign / check / a new HSM
+    object change nothing at all -/
+theorem other_slots_untouched (s : State) (op : Op) (j pw : Nat)
+    (hj : match op with
+      | .create k _ | .resetpw k _ _ | .delete k _ => j ≠ k
+      | _ => True) :
+    unlocks (HSM.step s op).1 j pw = unlocks s j pw := by
+  cases op with
+  | create k p => simp only [HSM.step]; split <;> simp [unlocks, get_set_other _ _ _ _ hj]
+  | sign k p => rfl
+  | check k p => rfl
+  | resetpw k o n => simp only [HSM.step]; split <;> simp [unlocks, get_set_other _ _ _ _ hj]
+  | delete k p => simp only [HSM.step]; split <;> simp [unlocks, get_set_other _ _ _ _ hj]
+  | reload => rfl
+
+example : (HSM.step (HSM.run HSM.empty [.create 0 7, .check 0 7, .resetpw 0 7 8]) (.check 0 7)).2 = false := by decide
+
+end hsm
 
 /-! ### the hypotheses are satisfiable; tests on literals -/
 
